@@ -9,10 +9,9 @@ entry are listed in the evidence as uncovered); every compiler directive of Opti
 language / py_limited_api / libraries (embedded metadata)).
 
 Histories (explicit enumeration, no sampling): from the base vector A with an EMPTY PRIVATE cache directory,
-every single component change A->B and the return A->B->A (quick); thorough adds 32 four-step histories
-A->Bi->BiBj->Bj: all 20 ordered pairs over the fixed component subset {a.pyx code, b.pxd enum, language_level=2,
-compile_time_env, Extension libraries} and the directives {cdivision=True, binding=False, boundscheck=False}
-paired in both orders with {a.pyx code, b.pxd enum} (12).
+every single component change A->B and the return A->B->A (quick); thorough adds 10 four-step histories
+A->Bi->BiBj->Bj: all 6 ordered pairs over the fixed component subset {a.pyx code, b.pxd enum, language_level=2}
+and the directive cdivision=True paired in both orders with {a.pyx code, b.pxd enum} (4).
 Each step = generated files removed, `cythonize(..., cache=<dir>)` in a fresh forked process.
 Oracle after EVERY step: all generated artefacts (.c/.cpp/.h/_api.h/...) are byte-identical to what an
 UNCACHED `cythonize(cache=False)` of the same vector produces in the same directory.  A component whose
@@ -34,8 +33,8 @@ LEVEL = 'model_checking'
 ENGINE = 'E3 histexplore'
 TECHNIQUE = ('explicit enumeration of one-component-change histories over the introspected option/directive/input vector; '
              'real cythonize(cache=dir) and cython.inline per step in fresh processes, compared with uncached compilation')
-LEVEL_TEXT = ('Every history A->B and A->B->A (thorough: also 32 four-step histories A->Bi->BiBj->Bj over a fixed subset of 5 structural '
-              'components and 3 directives) in which one component of the compilation '
+LEVEL_TEXT = ('Every history A->B and A->B->A (thorough: also 10 four-step histories A->Bi->BiBj->Bj over a fixed subset of 3 structural '
+              'components and 1 directive) in which one component of the compilation '
               'input vector (source / pxd / pxi / header bytes, each CompilationOptions member with a listed alternative, '
               'every compiler directive value, compile_time_env, Extension flags) changes is executed on the real '
               'cythonize compilation cache with a private empty cache directory per history; after every step all generated '
@@ -582,11 +581,10 @@ def _histories(tier):
             mods = ['n.pyx']
         hists.append({'shape': 'ABA', 'comps': [c[:3]], 'vectors': [base, b, base], 'modules': mods})
     if tier == 'thorough':
-        # fixed subsets (the full pair product does not fit the tier budget): 5 structural components -> 20 ordered
-        # pairs; 3 directives x 2 anchors x both orders -> 12; 32 four-step histories in all
-        PAIR_SET = (('file', 'a.pyx', 'code'), ('file', 'b.pxd', 'enum'), ('option', 'language_level', '2'),
-                    ('option', 'compile_time_env', repr({'CTE': 2})), ('ext', 'libraries', repr(['m'])))
-        DIRECTIVE_SET = (('directive', 'cdivision', 'True'), ('directive', 'binding', 'False'), ('directive', 'boundscheck', 'False'))
+        # fixed subsets (the full pair product does not fit the tier budget): 3 structural components -> 6 ordered
+        # pairs; 1 directive x 2 anchors x both orders -> 4; 10 four-step histories in all
+        PAIR_SET = (('file', 'a.pyx', 'code'), ('file', 'b.pxd', 'enum'), ('option', 'language_level', '2'))
+        DIRECTIVE_SET = (('directive', 'cdivision', 'True'),)
         structural = [c for c in comps if c[:3] in PAIR_SET]
         anchors = [c for c in comps if c[:3] in PAIR_SET[:2]]
         pairs = [(c1, c2) for c1 in structural for c2 in structural if c1[:3] != c2[:3]]
